@@ -63,6 +63,12 @@ def _scan(fn):
         stores = cxa.stores_of_node(strip(n)) if k in ("BinaryOperator", "CompoundAssignOperator", "UnaryOperator",
                                                        "ExprWithCleanups", "ParenExpr") else []
         handled = False
+        into_table = any(s.base and (s.base[0] == "field" or cxfe.subscript(s.target) is not None) for s in stores)
+        if into_table:
+            for x in walk(n):
+                if x.get("kind") == "DeclRefExpr" and uname(x):
+                    ev.append(("read-stored", uname(x), tuple(stack), x))
+            return
         for s in stores:
             if s.base and s.base[0] == "var" and cxfe.subscript(s.target) is None:
                 handled = True
@@ -101,42 +107,41 @@ def findings(tu):
                         continue
                     if st[:len(last_reset)] == last_reset:
                         summed |= set(st[len(last_reset):])
-                elif k == "read":
+                elif k in ("read", "read-stored"):
                     hit = [l for l in st if l in summed]
                     if hit:
-                        out.append({"fn": f.qual, "var": q, "node": n, "text": "%s read inside a loop it is accumulated over" % q})
+                        out.append({"fn": f.qual, "var": q, "node": n, "stored": k == "read-stored",
+                                    "text": "%s read inside a loop it is accumulated over" % q})
     return out, nacc
 
 
-# reads of a running value that are the point of the code (confirmed by reading): (function, variable) -> reason
-INTENDED = {
-    ("GenerateStochasticDistribution", "cumul"): "roulette-wheel search: the first cell whose cumulated amount exceeds the drawn target",
-    ("GenerateStochasticDistribution", "delta_count"): "number of corrections made so far; the loop ends when it reaches delta",
-    ("Gillespie3D::DrawAndApplyEvent", "a0_cumul"): "event selection: the first cell whose cumulated propensity exceeds u * a0",
-    ("Gillespie3D::DrawAndApplyEvent", "a_cumul"): "event selection inside the cell: the first channel whose cumulated propensity exceeds the target",
-    ("GillespieGraph::DrawAndApplyEvent", "a0_cumul"): "event selection: the first cell whose cumulated propensity exceeds u * a0",
-    ("GillespieGraph::DrawAndApplyEvent", "a_cumul"): "event selection inside the cell: the first channel whose cumulated propensity exceeds the target",
-}
+# a deliberately stored prefix sum (offset table) would be listed here with its reason: (function, variable) -> reason
+INTENDED_STORES = {}
 
 
 def rule(ctx, R, tu):
+    """a running value that only steers a search (compared with a threshold, handed on as the residual of one) is the point of
+    a cumulative search; a running value written into a table or a member is a total that was not reset"""
     import re
     out, nacc = findings(tu)
     seen = set()
     for o in out:
-        var = re.sub(r"'\d+$", "", o["var"])
-        key = (o["fn"], var)
+        var = re.sub(r"'\\d+$", "", o["var"])
+        key = (o["fn"], var, o["stored"])
         if key in seen:
             continue
         seen.add(key)
-        if key in INTENDED:
-            ctx.ok(R, o["node"], o["fn"], "running value of `%s` read inside its loop" % var, "intended: " + INTENDED[key],
+        if not o["stored"]:
+            ctx.ok(R, o["node"], o["fn"], "running value of `%s` steers a search (compared / passed on, never stored)" % var,
+                   "cumulative threshold search", nontrivial=False)
+        elif (o["fn"], var) in INTENDED_STORES:
+            ctx.ok(R, o["node"], o["fn"], "running value of `%s` stored" % var, "intended: " + INTENDED_STORES[(o["fn"], var)],
                    nontrivial=False)
         else:
-            ctx.violation(R, o["node"], o["fn"], "running value of `%s` read inside a loop it accumulates over" % var,
-                          "`%s` is not reset inside that loop, so what is read there is the sum over all the passes made so far, "
-                          "not the total of the current one (a hoisted `%s = 0`?): every pass after the first uses a wrong value"
+            ctx.violation(R, o["node"], o["fn"], "running value of `%s` stored inside a loop it accumulates over" % var,
+                          "`%s` is not reset inside that loop, so what is written there is the sum over all the passes made so far, "
+                          "not the total of the current one (a hoisted `%s = 0`?): every pass after the first stores a wrong value"
                           % (var, var))
-    ctx.ok(R, None, "engine", "%d compound updates of local scalars examined" % nacc, "no unlisted read of a running sum")
+    ctx.ok(R, None, "engine", "%d compound updates of local scalars examined" % nacc, "no running sum is written into a table")
     ctx.need(nacc >= 10, R, "only %d accumulator updates found in the engine" % nacc)
     ctx.floor(R, 1)
